@@ -246,7 +246,69 @@ FUNCS = ['marker_cache_v2.create_marker_cache_from_specified_markers',
          'CellByGeneMatrix.downsample_genes', 'downsample_cells',
          'TaxonomyTree.parents/children/all_parents/as_leaves']
 
+def _sc_setup(case, mode):
+    from harness import stagechecks as SC
+    SC.setup(case, mode)
+
+
+def h_unknown_marker_stage(ctx, case):
+    """the whole run: a listed marker that the reference does not have
+    ends the run with an error - wherever it is listed, with or without
+    flattening, whether or not the query has it; a table of known genes
+    maps"""
+    from harness import stage as ST
+    from harness import stagechecks as SC
+    inp = SC.inputs(case)
+    work = ST.new_work()
+    table = {k: list(v) for k, v in ST.MARKERS.items()}
+    where = [None, 'None', 'class/clsB', 'subclass/subA'][
+        ctx.choice('unknown_gene_listed_under', 4)]
+    gene = ['not_a_gene', 'qx'][ctx.choice('unknown_gene', 2)]
+    # not_a_gene: in neither file; qx: in the query only
+    if where is not None:
+        table[where].append(gene)
+    flatten = ctx.flag('flatten')
+    drop = [None, 'class', 'subclass'][ctx.choice('drop_level', 3)]
+    cfg = ST.make_config(inp, work, bootstrap_iteration=3)
+    cfg['query_markers'] = {'serialized_lookup':
+                            inp.markers_file(table, 'unk')}
+    cfg['flatten'] = flatten
+    cfg['drop_level'] = drop
+    res = ST.run(cfg)
+    ST.drop_work(work)
+    dropped_away = where is not None and drop is not None and \
+        where.startswith(drop + '/') and not flatten
+    if where is None:
+        ctx.reach('known genes only')
+        ctx.check(res['raised'] is None, 'a table of reference genes maps: '
+                  + str(res['raised'])[:80])
+        return 'mapped'
+    if dropped_away:
+        # the list belongs to a parent the run no longer has: either
+        # outcome is accepted
+        ctx.reach('list of a removed parent')
+        return 'either'
+    ctx.reach('unknown gene listed')
+    ctx.check(res['raised'] is not None, f'a marker unknown to the '
+              f'reference ({gene}, listed under {where}, flatten={flatten}, '
+              f'drop_level={drop}) ends the run with an error')
+    return 'error'
+
+
 HARNESSES = [
+    Harness('unknown_marker_ends_the_run', h_unknown_marker_stage,
+            setup=_sc_setup, cases=[{}],
+            funcs=['from_specified_markers.run_mapping', '_run_mapping '
+                   '(flatten / drop_level handling of the marker table)',
+                   'marker_cache_v2.create_marker_cache_from_specified_'
+                   'markers'],
+            stubs=['multiprocessing -> scheduler model'],
+            bounds='real files (three-level taxonomy, 7 reference genes); '
+                   'a gene unknown to the reference (in the query or not) '
+                   'listed under the root / a class / a subclass / '
+                   'nowhere; flatten on/off; drop of class / subclass / '
+                   'none',
+            expect_reach=['known genes only', 'unknown gene listed']),
     Harness('reconcile_markers', h_reconcile, setup=setup,
             cases=[{'sizes': [2], 'genes': 3, 'perm_ref': True,
                     'perm_query': True, 'dups': True},
